@@ -367,7 +367,19 @@ def o_fresh(root, pre, op, res, extra):
     return []
 
 
-ORACLES = {'fresh': o_fresh, 'nonedit': o_nonedit, 'census': o_census, 'inv': o_inv, 'refused': o_refused, 'frame': o_frame, 'reparse': o_reparse, 'nodouble': o_no_double}
+def o_reads(root, pre, op, res, extra):
+    """Every public attribute of every model of the document can be read (views iterated, mappings listed) without an
+    internal error: a document some accessor of which raises is no longer usable, whatever else still looks right."""
+    for p, m in intro.walk_api(root):
+        if isinstance(m, base.RawTokenModel):
+            continue
+        for k, v in intro.public_reads(m).items():
+            if isinstance(v, tuple) and v and isinstance(v[0], str) and 'raises' in v[0]:
+                return [(f'reads:{type(m).__name__}.{k}:{v[-1]}', f'after {op["kind"]}: reading {"/".join(map(str, p))} ({type(m).__name__}).{k} raises {v[-1]}')]
+    return []
+
+
+ORACLES = {'reads': o_reads, 'fresh': o_fresh, 'nonedit': o_nonedit, 'census': o_census, 'inv': o_inv, 'refused': o_refused, 'frame': o_frame, 'reparse': o_reparse, 'nodouble': o_no_double}
 
 
 def set_lf(lf):
@@ -487,7 +499,15 @@ def _session(ctx, r, root, text, auto_claim, lf, nops, oracles, syntax_preservin
             if cands:
                 focus = r.choice(cands)
         for step in range(nops):
-            op = edits.gen_op(r, root, syntax_preserving=syntax_preserving, malformed=malformed, kinds=kinds, focus=focus)
+            try:
+                op = edits.gen_op(r, root, syntax_preserving=syntax_preserving, malformed=malformed, kinds=kinds, focus=focus)
+            except Exception as e:
+                # choosing the next op only READS the document through its public API: a read that raises is a broken document
+                bad = o_reads(root, None, ops[-1] if ops else {'kind': 'parse'}, None, None)
+                sig, what = bad[0] if bad else (f'reads:generator:{type(e).__name__}', f'reading the document raised {type(e).__name__}: {str(e)[:120]}')
+                ctx.oracle_fail(prefix + sig, what, {'text': text, 'auto_claim': auto_claim, 'ops': [_slim(o) for o in ops],
+                                                     'oracles': list(dict.fromkeys(list(oracles) + ['reads'])), 'need_struct': need_struct, 'lf': lf})
+                break
             if op is None:
                 break
             ctx.current({'text': text, 'auto_claim': auto_claim, 'ops': [_slim(o) for o in ops] + [_slim(op)], 'oracles': list(oracles),
